@@ -180,7 +180,7 @@ class Variant:
         if s.pool:
             lines.append("  pool = " + s.pool)
         if s.dyndep and not getattr(s, "dyndep_at_rule", False):
-            lines.append("  dyndep = " + s.dyndep)
+            lines.append("  dyndep = " + getattr(s, "dyndep_spelled", s.dyndep))   # (the binding's value is a path like any other)
         if s.generator and getattr(s, "generator_at_build", False):
             lines.append("  generator = 1")     # bound in the build block: the rule itself says nothing
         return lines
